@@ -338,6 +338,9 @@ func (r *storeRun) open(dir string) (*comet.PersistentHybridIndex, bool) {
 }
 
 func docParts(id int) ([]float32, string, map[string]any) {
+	if id == 9 { // so far away that its squared distance overflows float32: +Inf is a score like any other (and the largest)
+		return []float32{3e19, 0}, "w9", map[string]any{"k": 9}
+	}
 	return []float32{float32(id), 0}, "w" + strconv.Itoa(id), map[string]any{"k": id}
 }
 
